@@ -980,6 +980,9 @@ def part_ens_shapes(ctx, spec):
 # =====================================================================================================
 # aln : align_to_ref_coords
 # =====================================================================================================
+NEAR_DELTAS = (1e-2, 2e-3, 5e-4, 2e-4, 5e-5, 1e-6)
+
+
 def _harness_kabsch(calls):
     def func(P, Q):
         calls.append(1)
@@ -1096,6 +1099,63 @@ def exec_aln(ctx, case):
                 if abs(rets[p][k] - rets[0][k]) > TOL * max(1.0, N.extent(Q)):
                     ctx.violation(f"{pre}:rmsd-depends-on-initial-pose", f"{pre} on {name}, conformer {k}: RMSD {rets[p][k]:.12g} vs {rets[0][k]:.12g}", case)
                     ok = False
+                    break
+            if not ok:
+                break
+    if ok and not degenerate and finals:
+        # near-optimum start poses: the optimum itself turned by a small angle about an axis through the core's
+        # centroid (and shifted by 1e-4): the result must be the optimum again, not "close enough"
+        X0 = base - np.mean(base[:, maps[0], :], axis=1, keepdims=True)
+        tied = set()
+        for k in range(nc):
+            rs = sorted(N.kabsch(X0[k][mm], Q)[1] for mm in maps)
+            if len(rs) > 1 and rs[1] - rs[0] < 1e-6:
+                tied.add(k)
+        F = finals[0]
+        cen = np.mean(F[:, maps[0], :], axis=1, keepdims=True)
+        for delta in NEAR_DELTAS:
+            for ax in ((0.0, 0.0, 1.0), (0.6, -0.3, 0.74)):
+                for shift in (0.0, 1e-4):
+                    Rn = N.rot_axis_angle(ax, delta).T
+                    start = (F - cen) @ Rn + cen + shift * np.array([1.0, -0.5, 0.25])
+                    if kind == "ens":
+                        obj._coords = start.copy()
+                    else:
+                        obj._coords = start[0].copy()
+                    ctx.count(evaluations=1, states=1, transitions=1, traces=1)
+                    try:
+                        ret = obj.align_to_ref_coords(_harness_kabsch([]), [list(mm) for mm in maps], refsub, vec.copy() if use_vec else None)
+                    except Exception as ex:
+                        ctx.violation(f"{pre}:raised-{_exc(ex)}[near-optimum-start]", f"{pre} on {name} from the optimum turned by {delta:g} rad raised {_exc(ex)}: {ex}", case)
+                        ok = False
+                        break
+                    after = np.asarray(obj.coords, dtype=float)
+                    after = after if kind == "ens" else after[None, :, :]
+                    retl = [float(x) for x in (ret if kind == "ens" else [ret])]
+                    for k in range(nc):
+                        if k in tied:
+                            continue
+                        dev = float(np.max(np.abs(after[k] - F[k])))
+                        _ratio("aln-near-pose", dev, 1e-8 * N.mag(F[k]))
+                        if dev > 1e-8 * N.mag(F[k]):
+                            ctx.violation(
+                                f"{pre}:result-depends-on-initial-pose[near-optimum-start]",
+                                f"{pre} on {name}, conformer {k}: started {delta:g} rad (shift {shift:g}) away from the aligned pose, the result differs from the aligned pose by {dev:.3g}",
+                                case,
+                            )
+                            ok = False
+                            break
+                        if abs(retl[k] - rets[0][k]) > TOL * max(1.0, N.extent(Q)):
+                            ctx.violation(
+                                f"{pre}:rmsd-depends-on-initial-pose[near-optimum-start]",
+                                f"{pre} on {name}, conformer {k}: RMSD {retl[k]:.12g} from a start {delta:g} rad off the optimum, {rets[0][k]:.12g} from a far pose",
+                                case,
+                            )
+                            ok = False
+                            break
+                    if not ok:
+                        break
+                if not ok:
                     break
             if not ok:
                 break
@@ -2300,8 +2360,279 @@ def part_partner(ctx, spec):
 
 
 # =====================================================================================================
-EXEC = {"rv": exec_rv, "ra": exec_ra, "mol": exec_mol, "dih": exec_dih, "ens": exec_ens, "aln": exec_aln, "hist": exec_hist, "histens": exec_histens, "arg": exec_arg, "own": exec_own, "mag": exec_mag, "partner": exec_partner}
-PARTS = {"rv_pairs": part_rv_pairs, "rv_anti": part_rv_anti, "ra": part_ra, "mol": part_mol, "dih": part_dih, "ens": part_ens, "aln": part_aln, "hist": part_hist, "histens": part_histens, "arg": part_arg, "own": part_own, "ens_shapes": part_ens_shapes, "mag": part_mag, "partner": part_partner}
+# ctor : the object's OWN coordinate block, whatever array-like it was constructed from
+# =====================================================================================================
+CTOR_KINDS = ("python-int", "int64", "int32", "float32", "float16", "float64-fortran", "float64-strided", "float64-readonly")
+CTOR_KIND_CLASS = {
+    "python-int": "integer",
+    "int64": "integer",
+    "int32": "integer",
+    "float32": "low-precision-float",
+    "float16": "low-precision-float",
+    "float64-fortran": "float64-layout",
+    "float64-strided": "float64-layout",
+    "float64-readonly": "float64-layout",
+}
+CTOR_ROUTES = (
+    "CartesianGeometry(elements, coords=)",
+    "Structure(elements, coords=)",
+    "Molecule(elements, coords=)",
+    "Molecule(molecule, coords=)",
+    "ConformerEnsemble(ensemble, coords=)",
+    "ConformerEnsemble(molecule, n_conformers=, coords=)",
+    "ConformerEnsemble([molecules built with such coords])",
+)
+CT_INT = [[0, 0, 0], [1, 1, 0], [2, 0, 1], [3, 1, 2], [2, 2, 3]]
+CT_ELEMS = ["C", "N", "O", "S", "C"]
+CT_BONDS = [(0, 1), (1, 2), (2, 3), (3, 4)]
+
+
+def _ctor_array(values, kind):
+    """(object handed to the constructor, its float64 value, an integrity check)"""
+    a = np.array(values, dtype=float)
+    if CTOR_KIND_CLASS[kind] != "integer":
+        a = a * 0.75 + 0.125  # dyadic: exact in float16 as well
+    holder = None
+    if kind == "python-int":
+        obj = a.astype(int).tolist()
+    elif kind in ("int64", "int32"):
+        obj = a.astype(kind)
+    elif kind in ("float32", "float16"):
+        obj = a.astype(kind)
+    elif kind == "float64-fortran":
+        obj = np.asfortranarray(a.copy())
+    elif kind == "float64-strided":
+        holder = np.full(a.shape[:-1] + (6,), -3.5)
+        holder[..., ::2] = a
+        obj = holder[..., ::2]
+    elif kind == "float64-readonly":
+        obj = a.copy()
+        obj.flags.writeable = False
+    else:
+        raise KeyError(kind)
+    snap = repr(obj) if isinstance(obj, list) else (obj.dtype.str, obj.shape, obj.strides, np.ascontiguousarray(obj).tobytes(), None if holder is None else holder.tobytes())
+
+    def intact():
+        now = repr(obj) if isinstance(obj, list) else (obj.dtype.str, obj.shape, obj.strides, np.ascontiguousarray(obj).tobytes(), None if holder is None else holder.tobytes())
+        return now == snap
+
+    return obj, np.array(obj, dtype=float), intact
+
+
+def _ctor_values(nc=None):
+    base = np.array(CT_INT, dtype=float)
+    if nc is None:
+        return base
+    out = []
+    for k in range(nc):
+        c = base.copy()
+        c[4] += np.array([k, 0, -k])
+        c[0] += np.array([0, k, 0])
+        out.append(c + np.array([k, 2 * k, 3 * k]))
+    return np.array(out)
+
+
+def _connect_chain(o):
+    for i, j in CT_BONDS:
+        o.connect(i, j)
+    return o
+
+
+def exec_ctor(ctx, case):
+    from molli.chem import CartesianGeometry, Structure
+
+    route = case["route"]
+    kind = case["kind"]
+    op = case["op"]
+    clsname = route.split("(")[0]
+    pre = f"constructed[{clsname},coords={CTOR_KIND_CLASS[kind]}]"
+    what = f"{route} with {kind} coordinates, then {op}"
+    is_ens = clsname == "ConformerEnsemble"
+    nc = 3
+    ctx.count(evaluations=1, states=1, traces=1)
+    old = np.seterr(all="ignore")
+    try:
+        # ---- construction ------------------------------------------------------------------------------------
+        try:
+            if not is_ens:
+                obj_in, val, intact = _ctor_array(_ctor_values(), kind)
+                if route.startswith("CartesianGeometry"):
+                    o = CartesianGeometry(list(CT_ELEMS), coords=obj_in)
+                elif route.startswith("Structure"):
+                    o = _connect_chain(Structure(list(CT_ELEMS), coords=obj_in))
+                elif route == "Molecule(elements, coords=)":
+                    o = _connect_chain(ml.Molecule(list(CT_ELEMS), coords=obj_in))
+                else:
+                    tmpl = _connect_chain(ml.Molecule(list(CT_ELEMS), coords=np.array(CT_INT, dtype=float) + 9.0))
+                    o = ml.Molecule(tmpl, coords=obj_in)
+            else:
+                obj_in, val, intact = _ctor_array(_ctor_values(nc), kind)
+                tmpl = _connect_chain(ml.Molecule(list(CT_ELEMS), coords=np.array(CT_INT, dtype=float) + 9.0))
+                if route.startswith("ConformerEnsemble(ensemble"):
+                    e0 = ml.ConformerEnsemble([ml.Molecule(tmpl) for _ in range(nc)])
+                    o = ml.ConformerEnsemble(e0, coords=obj_in)
+                elif route.startswith("ConformerEnsemble(molecule"):
+                    o = ml.ConformerEnsemble(tmpl, n_conformers=nc, coords=obj_in)
+                else:
+                    parts_ = []
+                    intacts = []
+                    vals = []
+                    for k in range(nc):
+                        oi, vi, ii = _ctor_array(_ctor_values(nc)[k], kind)
+                        parts_.append(_connect_chain(ml.Molecule(list(CT_ELEMS), coords=oi)))
+                        intacts.append(ii)
+                        vals.append(vi)
+                    o = ml.ConformerEnsemble(parts_)
+                    val = np.array(vals)
+                    intact = lambda: all(f() for f in intacts)  # noqa: E731
+            ctx.count(transitions=1)
+        except Exception as ex:
+            ctx.violation(f"{pre}:construction-raised-{_exc(ex)}", f"{what}: construction raised {_exc(ex)}: {ex}", case)
+            return
+        c0 = np.asarray(o.coords)
+        if c0.dtype != np.float64:
+            ctx.violation(f"{pre}:coords-dtype-not-float64", f"{what}: the object's coordinate block has dtype {c0.dtype} (float64 whatever the input, as measured on the reference tree)", case)
+            ctx.outcome(("ctor", clsname, kind, "dtype"))
+            return
+        if c0.shape != val.shape or c0.tobytes() != val.tobytes():
+            ctx.violation(f"{pre}:initial-coordinates-differ-from-the-values-given", f"{what}: coords after construction differ from the given values", case)
+            return
+        if not intact():
+            ctx.violation(f"{pre}:argument-array-modified", f"{what}: the array handed to the constructor was changed", case)
+            return
+        if np.shares_memory(c0, obj_in) if isinstance(obj_in, np.ndarray) else False:
+            ctx.violation(f"{pre}:shares-memory-with-the-argument", f"{what}: the object's coordinates alias the caller's array", case)
+            return
+        # ---- one operation, judged as everywhere else ---------------------------------------------------------
+        before = val.copy()
+        v = np.array([0.37, -1.21, 2.5])
+        R = N.rot_axis_angle([0.3, -0.5, 0.8], 1.9)
+        topo = Topo(o) if hasattr(o, "bonds") else None
+        quads = topo.stereo_quads() if topo is not None else ()
+        expected = None
+        moved = list(range(before.shape[-2]))
+        try:
+            if op == "translate":
+                o.translate(v.copy())
+                expected = before + v
+            elif op == "translate[2d]":
+                V = np.array([v * (k + 1) for k in range(nc)])
+                o.translate(V)
+                expected = before + V[:, None, :]
+            elif op == "transform":
+                (o.rotate if is_ens else o.transform)(R.copy())
+                expected = before @ R
+            elif op == "rotate_dihedral":
+                q = (0, 1, 2, 3)
+                tgt = o[1] if is_ens else o
+                bk = before[1] if is_ens else before
+                d0 = N.dihedral(*(bk[i] for i in q))
+                tgt.rotate_dihedral(q, d0 + 1.3)
+                d1 = N.dihedral(*(np.asarray(tgt.coords, dtype=float)[i] for i in q))
+                if abs(N.wrap_angle(d1 - d0 - 1.3)) > TOL:
+                    ctx.violation(f"{pre}:rotate_dihedral:dihedral-not-at-target", f"{what}: dihedral {d0:.6g} -> {d1:.6g}, target {d0 + 1.3:.6g}", case)
+                    return
+                moved = [3, 4]
+                rigid_with = (1, 2)
+            elif op == "substructure-translate":
+                (o[0] if is_ens else o).substructure([4, 1]).translate(v.copy())
+                expected = before.copy()
+                if is_ens:
+                    expected[0, [1, 4]] += v
+                else:
+                    expected[[1, 4]] += v
+            elif op == "coords=integer-array":
+                new = (np.array(_ctor_values(nc) if is_ens else _ctor_values()) + 2).astype(np.int64)
+                o.coords = new
+                expected = new.astype(float)
+            elif op == "center_at_atom":
+                o.center_at_atom(o.atoms[2])
+                expected = before - before[:, 2:3, :]
+            elif op == "center_at_core":
+                o.center_at_core([0, 1, 2])
+                expected = before - np.mean(before[:, [0, 1, 2], :], axis=1, keepdims=True)
+            elif op == "align":
+                refc = (before[0] if is_ens else before) @ N.pose_matrix(3)[0] + N.pose_matrix(3)[1]
+                refmol = _connect_chain(ml.Molecule(list(CT_ELEMS), coords=refc))
+                core = [0, 1, 2, 3]
+                refsub = refmol.substructure(core)
+                vec = np.mean(refc[core], axis=0)
+                refsub.translate(-vec)
+                Q = np.array(refsub.coords, dtype=float)
+                ret = o.align_to_ref_coords(_harness_kabsch([]), [list(core)], refsub, vec.copy())
+                fin = np.asarray(o.coords, dtype=float)
+                fin_l = fin if is_ens else fin[None]
+                for k, r_ in enumerate(ret if is_ens else [ret]):
+                    ach = N.rmsd(fin_l[k][core] - vec, Q)
+                    if abs(ach - float(r_)) > TOL * max(1.0, N.extent(Q)):
+                        ctx.violation(f"{pre}:align:returned-rmsd-differs-from-achieved", f"{what}: returned {float(r_):.9g}, achieved {ach:.9g}", case)
+                        return
+            else:
+                raise KeyError(op)
+            ctx.count(transitions=1)
+        except Exception as ex:
+            ctx.violation(f"{pre}:{op}-raised-{_exc(ex)}", f"{what} raised {_exc(ex)}: {ex}", case)
+            ctx.outcome(("ctor", clsname, kind, op, "raised"))
+            return
+        after = np.asarray(o.coords)
+        if after.dtype != np.float64 or after.shape != before.shape:
+            ctx.violation(f"{pre}:coords-dtype-not-float64", f"{what}: after the operation the coordinate block is {after.dtype}{after.shape}", case)
+            return
+        ok = True
+        bl = before if is_ens else before[None]
+        al = after if is_ens else after[None]
+        el = None if expected is None else (expected if is_ens else expected[None])
+        for k in range(bl.shape[0] if op != "coords=integer-array" else 0):
+            mv = moved
+            ex_k = None if el is None else el[k][sorted(set(mv))]
+            if op in ("rotate_dihedral", "substructure-translate") and is_ens and k != (1 if op == "rotate_dihedral" else 0):
+                mv, ex_k = [], None
+            if op == "substructure-translate":
+                mv = [1, 4] if (not is_ens or k == 0) else []
+                ex_k = None if el is None or not mv else el[k][[1, 4]]
+            ok = judge_edit(ctx, f"{pre}:{op}", case, bl[k], al[k], mv, ex_k, quads if op not in ("substructure-translate", "coords=integer-array") else (), what=what, rigid_with=(1, 2) if op == "rotate_dihedral" and mv else ()) and ok
+            if not ok:
+                break
+        if op == "coords=integer-array":
+            ok = True if float(np.max(np.abs(after - expected))) == 0.0 else False
+            if not ok:
+                ctx.violation(f"{pre}:coords=:not-the-assigned-values", f"{what}: coords differ from the assigned integer values", case)
+        ctx.outcome(("ctor", clsname, kind, op, ok))
+        if ok:
+            ctx.nontrivial(("ctor", route, kind, op))
+    finally:
+        np.seterr(**old)
+
+
+def ctor_cases(ctx):
+    out = []
+    for route in CTOR_ROUTES:
+        cls = route.split("(")[0]
+        if cls == "CartesianGeometry":
+            ops = ["translate", "transform", "coords=integer-array"]
+        elif cls == "Structure":
+            ops = ["translate", "transform", "rotate_dihedral", "substructure-translate", "coords=integer-array"]
+        elif cls == "Molecule":
+            ops = ["translate", "transform", "rotate_dihedral", "substructure-translate", "coords=integer-array", "align"]
+        else:
+            ops = ["translate", "translate[2d]", "transform", "rotate_dihedral", "substructure-translate", "coords=integer-array", "center_at_atom", "center_at_core", "align"]
+        for kind in CTOR_KINDS:
+            for op in ops:
+                out.append({"family": "ctor", "route": route, "kind": kind, "op": op})
+    return out
+
+
+def part_ctor(ctx, spec):
+    lo, hi = spec
+    for i, c in enumerate(ctor_cases(ctx)[lo:hi]):
+        exec_ctor(ctx, c)
+        if lo == 0 and i == 1:
+            ctx.sample(c)
+
+
+# =====================================================================================================
+EXEC = {"rv": exec_rv, "ra": exec_ra, "mol": exec_mol, "dih": exec_dih, "ens": exec_ens, "aln": exec_aln, "hist": exec_hist, "histens": exec_histens, "arg": exec_arg, "own": exec_own, "mag": exec_mag, "partner": exec_partner, "ctor": exec_ctor}
+PARTS = {"rv_pairs": part_rv_pairs, "rv_anti": part_rv_anti, "ra": part_ra, "mol": part_mol, "dih": part_dih, "ens": part_ens, "aln": part_aln, "hist": part_hist, "histens": part_histens, "arg": part_arg, "own": part_own, "ens_shapes": part_ens_shapes, "mag": part_mag, "partner": part_partner, "ctor": part_ctor}
 
 
 def _run_part(ctx, part):
@@ -2335,7 +2666,11 @@ def run(ctx):
         "view (and a Substructure of it) kept across 7 ensemble edits x 4 edits through the view; every ensemble-level operation (translate 1-D/2-D, "
         "rotate matrix/stack, center_at_atom for every atom, center_at_core, Conformer translate/transform, align_to_ref_coords) on ensembles whose "
         "(n_conformers, n_atoms) is (1,1),(1,3),(3,1),(3,3),(2,3),(3,2),(4,4),(5,5) and (17,17) pentane - the coincidences on which a "
-        "shape-dispatched argument could be misread - plus 1-atom and 3-atom molecules in the molecule families; a magnitude dimension: every lattice direction scaled by 10^k, "
+        "shape-dispatched argument could be misread - plus 1-atom and 3-atom molecules in the molecule families; every alignment case additionally started from the aligned pose turned "
+        f"by {list(NEAR_DELTAS)} rad about two axes through the core's centroid, with and without a 1e-4 shift (result equal to the aligned pose to "
+        "1e-8, RMSD to 1e-9); objects constructed with coords= given as python ints, int64, int32, float32, float16, Fortran-ordered, strided and "
+        "read-only float64 (CartesianGeometry, Structure, Molecule from elements and from a molecule, ConformerEnsemble from an ensemble / a molecule "
+        "/ molecules built that way): float64 block holding exactly the given values, then every operation of the surface; a magnitude dimension: every lattice direction scaled by 10^k, "
         f"k in {list(MAG_EXP)}, as the axis of rotation_matrix_from_axis (proper rotation, axis fixed, trace = 1+2cos to 1e-12) and in every "
         "pair of magnitudes as v1, v2 of rotation_matrix_from_vectors; transform with the matrix about the cross product of two directions "
         "1e-3..1e-14 apart taken from the molecule; rotate_dihedral and alignment on molecules scaled by 1e-14..1e8 (judged in units of the "
@@ -2362,6 +2697,7 @@ def run(ctx):
         "kept-view histories: the parent edit between creating and using a view is harness set-up through the public API (del_atom / add_atom with an explicit charge); whether that edit itself is consistent is C05's subject - the oracle compares the state after the view was used with the state right before, atom by atom",
         "argument kinds: a float32 argument is judged against its own (rounded) value with tolerance 1e-5/1e-6; float32 vectors within 1+cos < 1e-3 of antiparallel are judged for argument integrity only (the documented switch tol=1e-8 is below float32 resolution; counted in notes); center_at_core takes python-int lists/tuples as documented",
         "magnitudes 1e-300 / 1e300 are excluded: numpy.linalg.norm squares its argument, so HEAD returns NaN below ~1e-162 (underflow of the norm), loses accuracy at 1e-160 (subnormal squares) and returns the identity above ~1e154 (overflow: norm = inf); 1e-150 and 1e150 are the extreme magnitudes enumerated (measured on HEAD: exact to 1e-16)",
+        "the coordinate block of every geometry class is float64 whatever array-like was given to coords= (measured on the reference tree for all 7 construction routes x 8 kinds) and is asserted as such",
         "copy.copy (shallow copy) is not a copy route here: sharing the arrays is what a shallow copy means",
         "rotate_dihedral is exercised on acyclic bonds only; dihedrals with collinear triples do not occur in the test molecules",
     ]
@@ -2406,6 +2742,8 @@ def run(ctx):
             parts.append(("mag", (k, lo, hi)))
     for lo, hi in _chunks(len(partner_cases(ctx)), 4):
         parts.append(("partner", (lo, hi)))
+    for lo, hi in _chunks(len(ctor_cases(ctx)), 2):
+        parts.append(("ctor", (lo, hi)))
     for name in SHAPE_ENS:
         parts.append(("ens_shapes", name))
         parts.append(("histens", name))
